@@ -86,10 +86,26 @@ theorem C18_loss_is_cross_entropy (c : Cfg) (hc : c.Valid) (g : Rat) (batch : Li
     rw [projRow_eq_projOne c hc.1 g _ i (by simpa using hi)]
     simp
 
-/-- what `learn` hands back as new priorities is the cross-entropy (+ `prior_eps`):
-    1-step alone with `γ`; n-step alone with `γ ^ n_step`; combined = the sum of the two.
-    The element-wise loss (also when `per = False`) is the same without `prior_eps`, and the
-    indices returned with the priorities are the batch's own, in order. -/
+/-- the element-wise loss `learn` computes (with or without PER): 1-step alone with `γ`; n-step
+    alone with `γ ^ n_step`; combined = the sum of the two -/
+theorem C18_learn_elementwise (h : Hyper) (hc : h.cfg.Valid) (per : Bool) (one nb : List Sample) :
+    (learn h per one none).elementwise = one.map (crossEntropy h.cfg h.gamma) ∧
+    (h.combined = false → (learn h per one (some nb)).elementwise =
+        nb.map (crossEntropy h.cfg (h.gamma ^ h.nStep))) ∧
+    (h.combined = true → (learn h per one (some nb)).elementwise =
+        List.zipWith (fun s t => crossEntropy h.cfg h.gamma s + crossEntropy h.cfg (h.gamma ^ h.nStep) t)
+          one nb) := by
+  refine ⟨?_, ?_, ?_⟩
+  · simp [learn, C18_loss_is_cross_entropy _ hc]
+  · intro hcomb
+    simp [learn, hcomb, C18_loss_is_cross_entropy _ hc]
+  · intro hcomb
+    simp only [learn, hcomb, C18_loss_is_cross_entropy _ hc, if_true]
+    rw [List.zipWith_map_left, List.zipWith_map_right]
+
+/-- what `learn(per=True)` hands back as new priorities is that cross-entropy plus `prior_eps`,
+    sample by sample, together with the batch's own indices in the same order; without PER no
+    priorities are returned -/
 theorem C18_priority_is_cross_entropy (h : Hyper) (hc : h.cfg.Valid) (one nb : List Sample) :
     (learn h true one none).priorities =
         some (one.map fun s => crossEntropy h.cfg h.gamma s + h.priorEps) ∧
@@ -98,18 +114,18 @@ theorem C18_priority_is_cross_entropy (h : Hyper) (hc : h.cfg.Valid) (one nb : L
     (h.combined = true → (learn h true one (some nb)).priorities =
         some (List.zipWith (fun s t => crossEntropy h.cfg h.gamma s
                 + crossEntropy h.cfg (h.gamma ^ h.nStep) t + h.priorEps) one nb)) ∧
-    (∀ per, (learn h per one none).elementwise = one.map (crossEntropy h.cfg h.gamma)) ∧
     (learn h true one none).idxs = some (one.map (·.idx)) ∧
-    (learn h true one (some nb)).idxs = some (one.map (·.idx)) := by
-  refine ⟨?_, ?_, ?_, ?_, ?_, ?_⟩
-  · simp [learn, C18_loss_is_cross_entropy _ hc, List.map_map, Function.comp]
-  · intro hcomb
-    simp [learn, hcomb, C18_loss_is_cross_entropy _ hc, List.map_map, Function.comp]
-  · intro hcomb
-    simp only [learn, hcomb, C18_loss_is_cross_entropy _ hc, if_true, Option.some.injEq]
-    rw [List.zipWith_map_left, List.zipWith_map_right, List.map_zipWith]
-  · intro per
-    simp [learn, C18_loss_is_cross_entropy _ hc]
+    (learn h true one (some nb)).idxs = some (one.map (·.idx)) ∧
+    (learn h false one none).priorities = none ∧ (learn h false one (some nb)).priorities = none := by
+  have key : ∀ nst, (learn h true one nst).priorities =
+      some ((learn h true one nst).elementwise.map (· + h.priorEps)) := by intro nst; simp [learn]
+  obtain ⟨e1, e2, e3⟩ := C18_learn_elementwise h hc true one nb
+  refine ⟨?_, ?_, ?_, ?_, ?_, ?_, ?_⟩
+  · rw [key, e1, List.map_map]; rfl
+  · intro hcomb; rw [key, e2 hcomb, List.map_map]; rfl
+  · intro hcomb; rw [key, e3 hcomb, List.map_zipWith]
+  · simp [learn]
+  · simp [learn]
   · simp [learn]
   · simp [learn]
 
